@@ -691,6 +691,19 @@ fn codecs(rep: &mut Report, r: &mut Rng, thorough: bool) {
         }
     }
     rep.class("codec|Dr7Value::set_flags-partial-overlap");
+    // a Dr7Flags value may carry other bits (from_bits_retain of a raw register image): the conversion keeps only what a Dr7Value can hold
+    for _ in 0..500 {
+        rep.eval();
+        let raw = match r.below(3) { 0 => r.next(), 1 => r.next() | (1 << 10), _ => u64::MAX };
+        let flag_mask = flag_bits.iter().fold(0u64, |a, &b| a | (1 << b));
+        let v = Dr7Value::from(Dr7Flags::from_bits_retain(raw));
+        // (what survives is what a Dr7Value can hold: the flags and the condition / size fields; never a reserved bit)
+        if v.bits() != raw & (flag_mask | 0xffff_0000) || Dr7Value::from_bits(v.bits()).is_none() {
+            rep.violation("Dr7Value::from(Dr7Flags)|keeps-bits-a-Dr7Value-cannot-hold", J::obj(vec![("flags_raw", J::hex(raw)), ("value", J::hex(v.bits()))]));
+            break;
+        }
+    }
+    rep.class("codec|Dr7Value::from(Dr7Flags)");
     // the privilege level of a descriptor is bits 45..46 of its (first) quadword, all four levels
     for i in 0..4096u64 {
         rep.eval();
